@@ -3642,7 +3642,10 @@ private:
 
     basic_block_t &cur = get_node(curId);
 
-    if (has_one_child(curId) && has_one_parent(curId)) {
+    // (the entry block is never folded into a predecessor: it can have
+    // one when it is the head of a loop, possibly a self-loop)
+    if (!(curId == entry()) && has_one_child(curId) &&
+        has_one_parent(curId)) {
       basic_block_t &parent = get_parent(curId);
       basic_block_t &child = get_child(curId);
 
